@@ -5,7 +5,14 @@ HERE = os.path.dirname(os.path.dirname(os.path.abspath(__file__)))
 ALL = ["C%02d" % i for i in range(1, 21)]
 
 # property id -> dict(category, text, note, technique, design_ref)
-CLAIMED = {}
+CLAIMED = {
+    "C06": dict(
+        category="other",
+        text="Static typestate analysis of socket objects on every path of Client._connect/close for all 128 configurations and any number of resolved addresses, plus who-may-write and lazy-reconnect rules; decides the structural clauses (no leak, single socket, timeout order, TLS wrap, close idempotent) and not the behavioural 'next call works'.",
+        note="Trusted: CPython ast; the path interpreter's exception-edge model; summary of the socket API (close() inside cleanup does not raise). UNIX sockets are not TLS-wrapped.",
+        technique="typestate / must-pass-through analysis on a structured path interpreter with exception edges",
+    ),
+}
 
 PENDING_REASON = "static check not yet built in this revision (see DESIGN.md section 3); claimed once its rules run fail-closed on the pinned tree"
 NOT_APPLICABLE = {}
